@@ -56,11 +56,13 @@ def run(r):
             rep.ob("C01-IST", MOD + "symdel", is_set and sites[0][1].kind == "add", "pairs sharing several variants are reported once (result collected in a set)", w, expected="ans = set(); ans.add(...)",
                    found=show(coll, 40), key=f"dedup {mode[1]}")
             # distinct positions: pairs drawn by combinations over a duplicate-free position list
-            a = strip(sites[0][1].a)
-            it = strip(a[1])[-1] if head(a) == "item" else None
-            ok_comb = it is not None and head(strip(it)) == "call" and strip(strip(it)[1]) == ("glob", "itertools.combinations")
-            rep.ob("C01-FGA", MOD + "symdel", ok_comb, "every unordered pair of distinct positions sharing a variant is examined once (i != j by construction)", w,
-                   expected="for i, j in combinations(values, 2)", found=show(it, 60), key=f"pairs {mode[1]}")
+            from ._nn import pair_source_verdict
+            verdict, found = pair_source_verdict(nn, MOD + "symdel", sites[0][1])
+            if verdict is None:
+                rep.require(False, f"{MOD}symdel: pairs are drawn from {found}, which is not built from combinations(values, 2); cannot decide [C01-FGA]")
+            else:
+                rep.ob("C01-FGA", MOD + "symdel", bool(verdict), "every unordered pair of distinct positions sharing a variant is examined once (i != j by construction)", w,
+                       expected="for i, j in combinations(values, 2)", found=found, key=f"pairs {mode[1]}")
         # typed acceptance analysis last: structural findings above take precedence over an untypable candidate generator
         for label, st, sa, sb, policy, eq in sites:
             rep.analysed(st.q)
